@@ -145,7 +145,7 @@ Lemma draw_item_ok fx fuel kk c it :
   draw_item fx fuel kk c = Some (Some it) -> item_ok fx (kpen kk) it.
 Proof.
   destruct c; simpl; intro H; try discriminate; try (inversion H; subst; constructor; reflexivity).
-  destruct (grid_lines fuel unit); inversion H; subst. constructor.
+  destruct (grid_lines fx fuel unit); inversion H; subst. constructor.
 Qed.
 
 Lemma text_paint_in_group fx p : over_a (text_attr fx p) (spec_paint p) = spec_text_paint fx p.
@@ -177,7 +177,7 @@ Proof.
   - (* clear *) inversion H; subst; simpl. unfold over_a; simpl.
     rewrite !(pick_s_nonempty _ _ (clear_color_nonempty c)). reflexivity.
   - (* text *) inversion H; subst; simpl. rewrite text_paint_in_group, over_t_t0. reflexivity.
-  - (* gridn *) destruct (grid_lines fuel unit) as [l|]; inversion H; subst; simpl.
+  - (* gridn *) destruct (grid_lines fx fuel unit) as [l|]; inversion H; subst; simpl.
     rewrite map_map. f_equal. apply map_ext. intro gb. simpl. symmetry. apply grid_line_in_group.
 Qed.
 
@@ -185,13 +185,13 @@ Lemma draw_none fx fuel kk c :
   draw_item fx fuel kk c = Some None -> spec_shapes fx fuel kk c = Some [] /\ is_draw c = false.
 Proof.
   destruct c; simpl; intro H; try discriminate; try (split; reflexivity).
-  destruct (grid_lines fuel unit); discriminate.
+  destruct (grid_lines fx fuel unit); discriminate.
 Qed.
 
 Lemma draw_hang fx fuel kk c :
   draw_item fx fuel kk c = None <-> spec_shapes fx fuel kk c = None.
 Proof.
-  destruct c; simpl; split; intro H; try discriminate; destruct (grid_lines fuel unit); try discriminate; reflexivity.
+  destruct c; simpl; split; intro H; try discriminate; destruct (grid_lines fx fuel unit); try discriminate; reflexivity.
 Qed.
 
 Lemma draw_keeps_pen fx c kk :
@@ -413,8 +413,8 @@ Lemma spec_no_shape fx fuel kk c : is_draw c = false -> spec_shapes fx fuel kk c
 Proof. destruct c; simpl; intro H; try discriminate; reflexivity. Qed.
 
 Lemma spec_grid_shapes fx fuel kk u s :
-  spec_shapes fx fuel kk (CGridn u s) = option_map (map (spec_grid_line (kpen kk) s)) (grid_lines fuel u).
-Proof. simpl. destruct (grid_lines fuel u); reflexivity. Qed.
+  spec_shapes fx fuel kk (CGridn u s) = option_map (map (spec_grid_line (kpen kk) s)) (grid_lines fx fuel u).
+Proof. simpl. destruct (grid_lines fx fuel u); reflexivity. Qed.
 
 Lemma spec_count fx fuel l : forall kk out,
   forallb (fun c => negb (is_gridn c)) l = true ->
@@ -438,9 +438,10 @@ Definition no_dev (c : cmd) : bool :=
 Definition agree (a b : core) : Prop := cx a = cx b /\ cy a = cy b /\ kpen a = kpen b.
 
 Lemma spec_shapes_nodev fx1 fx2 fuel a b c :
+  fx_gridn_bound fx1 = fx_gridn_bound fx2 ->
   no_dev c = true -> agree a b -> spec_shapes fx1 fuel a c = spec_shapes fx2 fuel b c.
 Proof.
-  intros N [X [Y P]]. destruct c; simpl in *; try discriminate; rewrite ?X, ?Y, ?P; reflexivity.
+  intros GB N [X [Y P]]. destruct c; simpl in *; try discriminate; unfold grid_lines; rewrite ?X, ?Y, ?P, ?GB; reflexivity.
 Qed.
 
 Lemma core_step_agree fx1 fx2 a b c : agree a b -> agree (core_step fx1 a c) (core_step fx2 b c).
@@ -448,12 +449,12 @@ Proof.
   intros [X [Y P]]. unfold agree. destruct c; simpl; rewrite ?X, ?Y, ?P; auto.
 Qed.
 
-Lemma spec_from_nodev fx1 fx2 fuel l : forall a b,
+Lemma spec_from_nodev fx1 fx2 fuel l : fx_gridn_bound fx1 = fx_gridn_bound fx2 -> forall a b,
   forallb no_dev l = true -> agree a b -> spec_from fx1 fuel a l = spec_from fx2 fuel b l.
 Proof.
-  induction l as [|c t IH]; intros a b N A; simpl in *; [reflexivity|].
+  intro GB. induction l as [|c t IH]; intros a b N A; simpl in *; [reflexivity|].
   apply andb_true_iff in N as [N1 N2].
-  rewrite (spec_shapes_nodev fx1 fx2 fuel a b c N1 A), (IH _ _ N2 (core_step_agree fx1 fx2 a b c A)). reflexivity.
+  rewrite (spec_shapes_nodev fx1 fx2 fuel a b c GB N1 A), (IH _ _ N2 (core_step_agree fx1 fx2 a b c A)). reflexivity.
 Qed.
 
 (* without a text call no text is ever pending, so with fx_lone the guard holds *)
@@ -463,7 +464,7 @@ Lemma draw_no_text fx fuel kk c it :
   no_dev c = true -> draw_item fx fuel kk c = Some (Some it) -> no_text_item it = true.
 Proof.
   destruct c; simpl; intros N H; try discriminate; try (inversion H; subst; reflexivity).
-  destruct (grid_lines fuel unit); inversion H; subst. reflexivity.
+  destruct (grid_lines fx fuel unit); inversion H; subst. reflexivity.
 Qed.
 
 Lemma lone_ok_no_text fx p pend :
@@ -492,17 +493,22 @@ Proof.
       destruct (pending st) as [|? [|? ?]] eqn:PE; simpl; rewrite ?PE; reflexivity.
 Qed.
 
+(* the intended meaning, with the grid positions computed by the given loop
+   variant (the two loops draw the same grid up to floating-point rounding; which
+   one runs is a matter of termination, not of what is shown) *)
+Definition intended (loop_bounded : bool) : fixes := mkFx true true true loop_bounded true true true.
+
 (* the code in force against the INTENDED meaning: no ellipse / text call *)
 Theorem shows_what_was_drawn_guarded fx fuel l st :
   fx_lone fx = true ->
   run fx fuel pre_init (program l) = Some st ->
   forallb no_dev l = true ->
-  spec all fuel (program l) = Some (flatten (render fx st)).
+  spec (intended (fx_gridn_bound fx)) fuel (program l) = Some (flatten (render fx st)).
 Proof.
   intros L R N.
   assert (N' : forallb no_dev (program l) = true) by exact N.
   rewrite <- (shows_what_was_drawn fx fuel (program l) st R (guard_no_text fx fuel (program l) L pre_init N' eq_refl)).
-  unfold spec. symmetry. apply spec_from_nodev; [exact N' | repeat split].
+  unfold spec. symmetry. apply spec_from_nodev; [reflexivity | exact N' | repeat split].
 Qed.
 
 (* ---------- argument validation in gridnFunc ---------- *)
@@ -520,21 +526,68 @@ Qed.
 
 (* with the check in force, a unit <= 0 never reaches the loop *)
 Lemma gridn_nonpositive_rejected fx u c :
-  fx_gridn fx = true -> PrimFloat.leb u 0%float = true -> wrapper_accepts fx (CGridn u c) = false.
-Proof. intros G L. simpl. rewrite G, L. reflexivity. Qed.
+  fx_gridn fx = true -> fx_gridn_bound fx = false ->
+  PrimFloat.leb u 0%float = true -> wrapper_accepts fx (CGridn u c) = false.
+Proof. intros G B L. simpl. rewrite G, B, L. reflexivity. Qed.
 
 Lemma effective_units_positive fx l u c :
-  fx_gridn fx = true -> In (CGridn u c) (effective fx l) -> PrimFloat.leb u 0%float = false.
+  fx_gridn fx = true -> fx_gridn_bound fx = false ->
+  In (CGridn u c) (effective fx l) -> PrimFloat.leb u 0%float = false.
 Proof.
-  intros G I. pose proof (effective_accepted fx l) as A. rewrite forallb_forall in A.
-  specialize (A _ I). simpl in A. rewrite G in A. apply negb_true_iff in A. exact A.
+  intros G B I. pose proof (effective_accepted fx l) as A. rewrite forallb_forall in A.
+  specialize (A _ I). simpl in A. rewrite G, B in A. apply negb_true_iff in A. exact A.
 Qed.
 
 (* ---------- gridn's loop ---------- *)
+Definition old_loop (fuel : nat) (u : float) : option (list (geom * bool)) := grid_loop fuel 0%float (tx u) 0%Z.
+
+Lemma grid_lines_old fx fuel u : fx_gridn_bound fx = false -> grid_lines fx fuel u = old_loop fuel u.
+Proof. intro H. unfold grid_lines. rewrite H. reflexivity. Qed.
+
+(* --- with the bound (FIX gridn-tiny-unit-does-not-terminate): the loop always
+   ends, whatever the unit, and draws at most 2 * (maxGridRounds + 1) lines --- *)
+Lemma grid_rounds_length left : forall n u, (List.length (grid_rounds left n u) <= 2 * left)%nat.
+Proof.
+  induction left as [|k IH]; intros n u; simpl; [lia|].
+  destruct (PrimFloat.leb (fmul (float_of_Z n) u) grid_bound); simpl; [|lia].
+  specialize (IH (Z.succ n) u). lia.
+Qed.
+
+Theorem gridn_terminates_bounded fx fuel u :
+  fx_gridn_bound fx = true ->
+  exists l, grid_lines fx fuel u = Some l /\ (List.length l <= 2 * Z.to_nat (grid_max_rounds + 1))%nat.
+Proof.
+  intro H. exists (grid_count (tx u)). unfold grid_lines. rewrite H. split; [reflexivity|].
+  apply grid_rounds_length.
+Qed.
+
+(* so with the bound no history hangs: a document is always written *)
+Lemma step_some fx fuel st c : fx_gridn_bound fx = true -> exists st', step fx fuel st c = Some st'.
+Proof.
+  intro H. unfold step.
+  destruct (draw_item fx fuel (k st) c) as [[it|]|] eqn:D; try (eexists; reflexivity).
+  destruct c; simpl in D; try discriminate. unfold grid_lines in D. rewrite H in D. discriminate.
+Qed.
+
+Theorem never_hangs fx fuel l : fx_gridn_bound fx = true -> forall st, exists st', run fx fuel st l = Some st'.
+Proof.
+  intro H. induction l as [|c t IH]; intro st; simpl; [eexists; reflexivity|].
+  destruct (step_some fx fuel st c H) as [st1 S]. rewrite S. apply IH.
+Qed.
+
+(* every gridn call that reaches the platform has a unit >= minGridUnit (in particular not NaN) *)
+Lemma effective_units_at_least_min fx l u c :
+  fx_gridn_bound fx = true -> In (CGridn u c) (effective fx l) -> PrimFloat.leb grid_min_unit u = true.
+Proof.
+  intros G I. pose proof (effective_accepted fx l) as A. rewrite forallb_forall in A.
+  specialize (A _ I). simpl in A. rewrite G in A. exact A.
+Qed.
+
+(* --- the accumulating loop (code in force until the bound lands) --- *)
 (* Termination, stated over the abstract condition: some natural-number
    measure of the loop variable strictly decreases at every round that is
    entered.  (Over binary64 "unit > 0" is NOT sufficient: i + unit = i once
-   unit < ulp(i)/2, e.g. unit = 1e-17.) *)
+   unit < ulp(i)/2, see [gridn_stalls].) *)
 Lemma grid_loop_terminates u (m : float -> nat) :
   (forall i, PrimFloat.leb i grid_bound = true -> (m (fadd i u) < m i)%nat) ->
   forall n i cnt, (m i <= n)%nat -> exists l, grid_loop (S n) i u cnt = Some l.
@@ -544,25 +597,21 @@ Proof.
     specialize (Hm i E). lia.
   - change (grid_loop (S (S n)) i u cnt) with
       (if PrimFloat.leb i grid_bound then
-         match grid_loop (S n) (fadd i u) u (S cnt) with
-         | Some r =>
-             let h := float_of_Z (c_evyHeight * c_scaleFactor) in
-             let w := float_of_Z (c_evyWidth * c_scaleFactor) in
-             let thick := Nat.eqb (Nat.modulo cnt grid_thick_every) 0 in
-             Some ((GLine i 0%float i h, thick) :: (GLine 0%float i w i, thick) :: r)
+         match grid_loop (S n) (fadd i u) u (Z.succ cnt) with
+         | Some r => Some (grid_pair i (Z.eqb (Z.modulo cnt grid_every) 0) r)
          | None => None
          end
        else Some []).
     destruct (PrimFloat.leb i grid_bound) eqn:E; [|eexists; reflexivity].
-    specialize (Hm i E). destruct (IH (fadd i u) (S cnt)) as [r Hr]; [lia|].
+    specialize (Hm i E). destruct (IH (fadd i u) (Z.succ cnt)) as [r Hr]; [lia|].
     rewrite Hr. eexists; reflexivity.
 Qed.
 
 Theorem gridn_terminates_if_measure unit (m : float -> nat) :
   (forall i, PrimFloat.leb i grid_bound = true -> (m (fadd i (tx unit)) < m i)%nat) ->
-  exists fuel l, grid_lines fuel unit = Some l.
+  exists fuel l, old_loop fuel unit = Some l.
 Proof.
-  intro Hm. destruct (grid_loop_terminates (tx unit) m Hm (m 0%float) 0%float O (le_n _)) as [l Hl].
+  intro Hm. destruct (grid_loop_terminates (tx unit) m Hm (m 0%float) 0%float 0%Z (le_n _)) as [l Hl].
   exists (S (m 0%float)), l. exact Hl.
 Qed.
 
@@ -574,15 +623,26 @@ Proof.
   rewrite B, S, IH. reflexivity.
 Qed.
 
-Lemma gridn_zero_never_ends : forall fuel, grid_lines fuel 0%float = None.
+Lemma gridn_zero_never_ends : forall fuel, old_loop fuel 0%float = None.
 Proof. intro fuel. apply grid_loop_stuck; vm_compute; reflexivity. Qed.
 
-Lemma gridn_neg_infinity_never_ends : forall fuel, grid_lines fuel neg_infinity = None.
+Lemma gridn_neg_infinity_never_ends : forall fuel, old_loop fuel neg_infinity = None.
 Proof.
-  intros [|f]; [reflexivity|]. unfold grid_lines. simpl.
+  intros [|f]; [reflexivity|]. unfold old_loop. simpl.
   replace (PrimFloat.leb 0 grid_bound) with true by (vm_compute; reflexivity).
   replace (fadd 0 (tx neg_infinity)) with neg_infinity by (vm_compute; reflexivity).
   rewrite grid_loop_stuck; [reflexivity | vm_compute; reflexivity | vm_compute; reflexivity].
+Qed.
+
+(* the stall: with unit 1e-17 (scaled: 1e-16 < ulp(1)/2) the loop variable no
+   longer moves once it has reached 1, and 1 <= 1000: from there the
+   accumulating loop never ends, whatever the fuel *)
+Lemma gridn_stalls :
+  fadd 1%float (tx 1e-17%float) = 1%float /\
+  forall fuel cnt, grid_loop fuel 1%float (tx 1e-17%float) cnt = None.
+Proof.
+  assert (E : fadd 1%float (tx 1e-17%float) = 1%float) by (vm_compute; reflexivity).
+  split; [exact E|]. apply grid_loop_stuck; [vm_compute; reflexivity | exact E].
 Qed.
 
 (* non-vacuity of the measure hypothesis: unit = NaN (0/0): the loop body runs once *)
